@@ -269,6 +269,14 @@ GhCb(p, d, n) ==
                     !.bad = IF gh.sess[p] # d THEN @ \cup {"closeWithoutSession"} ELSE @]
     [] OTHER -> gh
 
+(* The keepalive timer after a successful write of an UPDATE: it is restarted by the keepalive-manager
+   goroutine, asynchronously.  If it had already expired (the FSM was busy in a callback), the FSM's select
+   may still see the expiry before the restart takes effect: one extra KEEPALIVE is then sent.          *)
+KaAfterWrite(f, ok) ==
+  IF ~ok \/ f.H = 0 THEN {f.kaDl}
+  ELSE IF Due(f.kaDl) THEN {f.kaDl, Arm(f.H \div 3)}
+  ELSE {Arm(f.H \div 3)}
+
 FsmStep(p, d) ==
   LET f == fsm[p][d]
       op == Head(f.todo)
@@ -377,8 +385,8 @@ FsmStep(p, d) ==
             /\ UNCHANGED <<out, conn, dial, gh>>
        [] op.op = "cbWrite" ->
             LET ok == CanWrite(c) IN
-            /\ setF([f EXCEPT !.todo = <<OpCbWriteRet(IF ok THEN "nil" ELSE "err")>> \o Tail(rest),
-                              !.kaDl = IF ok /\ f.H # 0 THEN Arm(KaInt) ELSE @])
+            /\ \E nk \in KaAfterWrite(f, ok) :
+                 setF([f EXCEPT !.todo = <<OpCbWriteRet(IF ok THEN "nil" ELSE "err")>> \o Tail(rest), !.kaDl = nk])
             /\ out' = Emit(out, Ev(IF ok THEN "w" ELSE "wfail", "", c, "", 0, MUpdate(op.b), ""))
             /\ UNCHANGED <<conn, dial, gh>>
        [] op.op = "cbWriteRet" ->
@@ -888,7 +896,7 @@ WriteCall(id) ==
                 ok == CanWrite(f.conn)
             IN /\ calls' = [calls EXCEPT ![id].pc = "ret", ![id].r = IF ok THEN "nil" ELSE "err"]
                /\ out' = Emit(out, Ev(IF ok THEN "w" ELSE "wfail", "", f.conn, "", 0, MUpdate(cl.b), ""))
-               /\ fsm' = IF ok /\ f.H # 0 THEN [fsm EXCEPT ![cl.p][d].kaDl = Arm(f.H \div 3)] ELSE fsm
+               /\ \E nk \in KaAfterWrite(f, ok) : fsm' = [fsm EXCEPT ![cl.p][d].kaDl = nk]
   /\ UNCHANGED <<cfg, srv, pm, conn, dial, now, gh>>
 
 WriteRet(id) ==
